@@ -4533,3 +4533,191 @@ func c13SpecNotWrittenPerConnection(c *Ctx) {
 		c.OK(R, "spec-readonly:PopulateFromUQUIC does not write into the spec's transport parameters", c.P.Pos(f.Pos()), "no store through the parameter")
 	}
 }
+
+// guardSet: the conditions (as "±descriptor") of the branch edges that dominate block b — each dominator that ends in an
+// If and whose taken successor has that If as only predecessor contributes one entry. Descriptors: field loads,
+// `field == const`, static calls by name.
+func guardSet(b *ssa.BasicBlock) map[string]bool {
+	out := map[string]bool{}
+	for d := b; d != nil && d.Idom() != nil; d = d.Idom() {
+		id := d.Idom()
+		ifi, ok := id.Instrs[len(id.Instrs)-1].(*ssa.If)
+		if !ok || len(d.Preds) != 1 {
+			continue
+		}
+		pol := id.Succs[0] == d
+		cond := ifi.Cond
+		for {
+			if u, ok := cond.(*ssa.UnOp); ok && u.Op == token.NOT {
+				cond, pol = u.X, !pol
+				continue
+			}
+			break
+		}
+		desc := ""
+		switch x := cond.(type) {
+		case *ssa.Call:
+			if sc := x.Call.StaticCallee(); sc != nil {
+				desc = "call " + sc.Name()
+			}
+		case *ssa.BinOp:
+			if fl, _ := loadedField(stripConv(x.X)); fl != nil {
+				if k, ok := stripConv(x.Y).(*ssa.Const); ok {
+					op := x.Op
+					if !pol && (op == token.EQL || op == token.NEQ) {
+						op, pol = negOp(op), true
+					}
+					desc = "field " + fl.Name() + " " + op.String() + " " + k.Value.String()
+				}
+			}
+		default:
+			if fl, _ := loadedField(stripConv(cond)); fl != nil {
+				desc = "field " + fl.Name()
+			}
+		}
+		if desc == "" {
+			desc = "?" + cond.String()
+		}
+		sign := "+"
+		if !pol {
+			sign = "-"
+		}
+		out[sign+desc] = true
+	}
+	return out
+}
+
+// C06.8: the anti-deadlock probe fires under the condition it is armed with. getPTOTimeAndSpace arms a timer
+// "now + PTO" for the client that has nothing outstanding in the Initial/Handshake spaces while the server may still be
+// amplification-limited; OnLossDetectionTimeout must turn exactly that situation into a probe (ptoCount++,
+// numProbesToSend++, PTO mode Initial/Handshake). If the two conditions differ (0-RTT packets in flight make
+// bytesInFlight non-zero), the expiry is a no-op that re-arms itself for ever.
+func c06AntiDeadlockArmAndFireAgree(c *Ctx) {
+	const R = "C06.8"
+	arm := c.fn(ah, "sentPacketHandler", "getPTOTimeAndSpace")
+	fire := c.fn(ah, "sentPacketHandler", "OnLossDetectionTimeout")
+	gsp := c.obj(ah, "sentPacketHandler", "getScaledPTO")
+	npts := c.fld(ah, "sentPacketHandler", "numProbesToSend")
+	// arming site: the return whose time is now.Add(getScaledPTO(..)) with `now` the parameter
+	var armB *ssa.BasicBlock
+	eachInstr(arm, func(in ssa.Instruction) {
+		cl, ok := in.(*ssa.Call)
+		if !ok || cl.Call.StaticCallee() == nil || cl.Call.StaticCallee().Name() != "Add" || len(cl.Call.Args) != 2 {
+			return
+		}
+		if _, isParam := cl.Call.Args[0].(*ssa.Parameter); isParam && CallTo(gsp, -1)(cl.Call.Args[1]) && armB == nil {
+			armB = in.Block()
+		}
+	})
+	// firing site: the first numProbesToSend++ (increment by one)
+	var fireB *ssa.BasicBlock
+	eachInstr(fire, func(in ssa.Instruction) {
+		st, ok := in.(*ssa.Store)
+		if !ok || fieldOfAddress(st.Addr) != npts {
+			return
+		}
+		if BinV(token.ADD, Load(npts), ConstI(1))(st.Val) && fireB == nil {
+			fireB = in.Block()
+		}
+	})
+	if !c.Check(armB != nil, R, "anchor:getPTOTimeAndSpace arms now+PTO for the anti-deadlock case", "-", "return of now.Add(getScaledPTO())") ||
+		!c.Check(fireB != nil, R, "anchor:OnLossDetectionTimeout has the single-probe anti-deadlock branch", "-", "numProbesToSend++") {
+		return
+	}
+	ga, gf := guardSet(armB), guardSet(fireB)
+	// conditions about which space the probe goes to, and the loss-timer early return, are not part of the predicate
+	clean := func(m map[string]bool) []string {
+		var out []string
+		for k := range m {
+			if strings.Contains(k, "field initialPackets") || strings.Contains(k, "field handshakePackets") || strings.Contains(k, "call IsZero") {
+				continue
+			}
+			out = append(out, k)
+		}
+		sort.Strings(out)
+		return out
+	}
+	a, f := clean(ga), clean(gf)
+	c.Check(len(a) >= 2 && strings.Join(a, " ∧ ") == strings.Join(f, " ∧ "), R, "agree:the anti-deadlock probe fires under the condition it is armed with", c.P.Pos(fire.Pos()),
+		fmt.Sprintf("armed under {%s}, fires under {%s}: with a difference the timer expires, does nothing and re-arms (no probe, no back-off), and an amplification-blocked server is never unblocked", strings.Join(a, " ∧ "), strings.Join(f, " ∧ ")))
+}
+
+// C06.9: the client takes the server's address validation for complete only on an ACK received in a Handshake
+// packet (or when the Handshake keys are dropped — handshake confirmed). A 1-RTT ACK proves nothing: with 0-RTT the
+// server acknowledges 0-RTT data in 1-RTT packets before it has seen a single Handshake packet of the client.
+func c06ClientValidationOnlyOnHandshakeAck(c *Ctx) {
+	const R = "C06.9"
+	f := c.fn(ah, "sentPacketHandler", "ReceivedAck")
+	pcav := c.fld(ah, "sentPacketHandler", "peerCompletedAddressValidation")
+	hs := c.konst("internal/protocol", "EncryptionHandshake")
+	sets := func(in ssa.Instruction) bool {
+		st, ok := in.(*ssa.Store)
+		return ok && fieldOfAddress(st.Addr) == pcav && isConstBool(st.Val, true)
+	}
+	c.Floor(R, "ReceivedAck sets peerCompletedAddressValidation", countInstr(f, sets), 1)
+	c.cut(R, "guard:ReceivedAck completes address validation only for a Handshake ACK", &Cut{Fn: f, Target: sets, NoInline: true,
+		Edge: EdgeRel(Rel{Op: token.EQL, X: ParamV("encLevel"), Y: ConstOf(hs)}, false)},
+		"once the flag is set the anti-deadlock timer is no longer armed: a 0-RTT client whose Finished is stuck behind the congestion window and whose Handshake flight was lost stalls until the idle timeout")
+	c.checkWriters(R, pcav, c.set([3]string{ah, "sentPacketHandler", "ReceivedAck"}, [3]string{ah, "sentPacketHandler", "DropPackets"}, [3]string{ah, "", "NewSentPacketHandler"}), 2)
+}
+
+// C14.6: every datagram a connection hands to the network is charged to the anti-amplification budget first: each
+// call of sendQueue.Send / sendConn.Write in a method of Conn is reached only after the packet was registered with the
+// sent-packet handler (SentPacket, directly or through registerPackedShortHeaderPacket / appendOneShortHeaderPacket),
+// and registerPackedShortHeaderPacket itself calls SentPacket on every path.
+func c14EverySendIsCharged(c *Ctx) {
+	const R = "C14.6"
+	spI := c.obj(ah, "SentPacketHandler", "SentPacket")
+	reg := c.obj("", "Conn", "registerPackedShortHeaderPacket")
+	app := c.obj("", "Conn", "appendOneShortHeaderPacket")
+	sq := c.fld("", "Conn", "sendQueue")
+	cn := c.fld("", "Conn", "conn")
+	spc := c.obj("", "Conn", "sendPackedCoalescedPacket")
+	charged := OrIP(CallsTo(spI), CallsTo(reg), CallsTo(app), CallsTo(spc))
+	// sendPackedCoalescedPacket registers each long header packet in its loop and the short header packet in its
+	// branch before the one Send at its end (whether the loop body runs is a matter of the packet's content)
+	spcF := c.fn("", "Conn", "sendPackedCoalescedPacket")
+	c.Floor(R, "SentPacket registrations in sendPackedCoalescedPacket (long header loop, short header branch)", countInstr(spcF, CallsTo(spI)), 2)
+	regF := c.fn("", "Conn", "registerPackedShortHeaderPacket")
+	c.cut(R, "charged:registerPackedShortHeaderPacket registers every packet", &Cut{Fn: regF, Target: isReturn, Barrier: CallsTo(spI), NoInline: true}, "no return without SentPacket")
+	appF := c.fn("", "Conn", "appendOneShortHeaderPacket")
+	c.cut(R, "charged:appendOneShortHeaderPacket registers every packet it appends", &Cut{Fn: appF, Target: func(in ssa.Instruction) bool {
+		r, ok := in.(*ssa.Return)
+		return ok && IsNil()(retResults(r)[1])
+	}, Barrier: CallsTo(reg), NoInline: true}, "no error-free return without registration")
+	n := 0
+	for _, f := range c.P.ScopeFuncs() {
+		if f.Pkg == nil || f.Pkg.Pkg.Name() != "quic" || f.Signature.Recv() == nil {
+			continue
+		}
+		if nt := namedOf(f.Signature.Recv().Type()); nt == nil || nt.Obj().Name() != "Conn" {
+			continue
+		}
+		sites := findInstrs(f, func(in ssa.Instruction) bool {
+			cl, ok := in.(ssa.CallInstruction)
+			if !ok || in.Parent() != f || f == spcF {
+				return false
+			}
+			cc := cl.Common()
+			var recv ssa.Value
+			name := ""
+			if cc.IsInvoke() {
+				recv, name = cc.Value, cc.Method.Name()
+			} else if sc := cc.StaticCallee(); sc != nil && sc.Signature.Recv() != nil && len(cc.Args) > 0 {
+				recv, name = cc.Args[0], sc.Name()
+			}
+			if recv == nil {
+				return false
+			}
+			return (name == "Send" && Load(sq)(recv)) || (name == "Write" && Load(cn)(recv))
+		})
+		for k, s := range sites {
+			s := s
+			n++
+			c.cut(R, fmt.Sprintf("charged:%s hands a datagram to the network only after charging it#%d", f.Name(), k+1), &Cut{Fn: f, NoInline: true,
+				Target: func(in ssa.Instruction) bool { return in == s }, Barrier: charged},
+				"bytes that leave without passing SentPacket are not counted in bytesSent: before address validation they are sent on top of the 3x budget")
+		}
+	}
+	c.Floor(R, "send sites in methods of Conn", n, 5)
+}
